@@ -70,6 +70,16 @@ def native_eigvec(n, kind, dtname, method, seed):
         one = M.matrix_eigenvectors(torch.tensor([[3.0]], dtype=dt))
         if not torch.equal(one, torch.ones(1, 1, dtype=dt)):
             return "1x1 input does not yield one"
+        # results are fresh tensors: a caller that post-processes a returned basis in place must not change what later calls return
+        for cfg_ in (EighEigenvectorConfig(), QRConfig(max_iterations=1, tolerance=0.0)):
+            r1 = M.matrix_eigenvectors(A, eigenvector_computation_config=cfg_, is_diagonal=True)
+            r1.mul_(-3.0)
+            o1 = M.matrix_eigenvectors(torch.tensor([[3.0]], dtype=dt), eigenvector_computation_config=cfg_)
+            o1.add_(5.0)
+            r2 = M.matrix_eigenvectors(A, eigenvector_computation_config=cfg_, is_diagonal=True)
+            o2 = M.matrix_eigenvectors(torch.tensor([[3.0]], dtype=dt), eigenvector_computation_config=cfg_)
+            if not torch.equal(r2, torch.eye(n, dtype=dt)) or not torch.equal(o2, torch.ones(1, 1, dtype=dt)):
+                return "a basis returned earlier and modified in place by the caller changes what a later call returns (results share storage)"
         return None
     # QR
     its = 1 + (seed % 3)
@@ -80,6 +90,16 @@ def native_eigvec(n, kind, dtname, method, seed):
         return "QR with a zero estimate does not fall back to the eigendecomposition"
     if n == 1:
         return None
+    if kind == "singular" and n > 2:
+        # a singular PSD matrix with STRUCTURAL zeros (an exactly-zero row / column) and an estimate that contains that unit vector:
+        # the R factor of the iteration then has an exactly-zero diagonal entry; the result must still be an orthonormal basis
+        Az = A.clone()
+        Az[0, :] = 0
+        Az[:, 0] = 0
+        for est_ in (torch.eye(n, dtype=dt), torch.eye(n, dtype=dt)[:, torch.randperm(n, generator=g)]):
+            Qz = M.matrix_eigenvectors(Az, eigenvectors_estimate=est_, eigenvector_computation_config=cfg).double()
+            if float((Qz.T @ Qz - eye).abs().max()) > tol * 5:
+                return "QR: basis not orthonormal for a singular matrix with an exactly-zero row/column and a unit-vector estimate"
     est, _ = torch.linalg.qr(torch.randn(n, n, generator=g, dtype=torch.float64))
     Q = M.matrix_eigenvectors(A, eigenvectors_estimate=est.to(dt), eigenvector_computation_config=cfg).double()
     if float((Q.T @ Q - eye).abs().max()) > tol * 5:
